@@ -1,6 +1,15 @@
 import NbioVerif.Properties.C06
+import NbioVerif.Lemmas.HttpTables
 #print axioms Scan.implParse_eq_spec
 #print axioms Scan.specFeed_append
 #print axioms Http.wf
 #print axioms Scan.c06_segmentation_independent
 #print axioms Http.c06_http
+#print axioms Http.isToken_table
+#print axioms Http.isHex_table
+#print axioms Http.isNum_table
+#print axioms Http.isAlpha_table
+#print axioms Http.isValidMethodChar_table
+#print axioms Http.validMethods_table
+#print axioms Http.state_table
+#print axioms Http.isToken_rfc
